@@ -149,6 +149,28 @@ func VerifC10Must() {
 //	params: k (kind), n (elements / runs)
 func VerifC10ValidateSound() {
 	k, n := vsym.Param("k"), vsym.Param("n")
+	if k == 3 {
+		// whole bitmap: n chunks with UNCONSTRAINED keys and possibly mismatched parallel slices
+		rb := &Bitmap{}
+		ra := &rb.highlowcontainer
+		for i := 0; i < n; i++ {
+			c, _ := vGenArray(1)
+			ra.keys = append(ra.keys, vsym.U16())
+			ra.containers = append(ra.containers, c)
+			ra.needCopyOnWrite = append(ra.needCopyOnWrite, false)
+		}
+		switch vsym.Param("skew") {
+		case 1:
+			ra.keys = append(ra.keys, vsym.U16())
+		case 2:
+			ra.needCopyOnWrite = ra.needCopyOnWrite[:n-1]
+		}
+		if rb.Validate() == nil {
+			vBitmapWf(rb, true)
+		}
+		vsym.Reach("end")
+		return
+	}
 	var c container
 	switch k {
 	case vKArray:
